@@ -139,6 +139,7 @@ func runPFaultCase(c *Case, env *Env) *Result {
 	segsRef := append([]segment.Segment(nil), segs...)
 	// one execution of the workload with a writer fault and/or a cancellation point
 	exec := func(wf *WriteFault, cancelAt int) *pfOutcome {
+		Heartbeat()
 		out := &pfOutcome{}
 		wr := NewSimWriter(sched)
 		wr.Fault = wf
